@@ -30,6 +30,58 @@ fn generate_insert_call(max_memory_expr: &TokenStream2) -> TokenStream2 {
     }
 }
 
+/// Verification hook H2 (cargo feature `verif`, add-only): registers closures that dump the
+/// async cache of this function (entries, order queue) and shift the entries' timestamps.
+fn verif_registration(
+    cache_ident: &syn::Ident,
+    order_ident: &syn::Ident,
+    fn_name_str: &str,
+    max_memory_expr: &TokenStream2,
+) -> TokenStream2 {
+    if !cfg!(feature = "verif") {
+        return quote! {};
+    }
+    let size_expr = if !max_memory_expr.to_string().contains("None") {
+        quote! { cachelito_core::MemoryEstimator::estimate_memory(&e.value().0) }
+    } else {
+        quote! { 0usize }
+    };
+    quote! {
+        static VERIF_REGISTERED: once_cell::sync::OnceCell<()> = once_cell::sync::OnceCell::new();
+        VERIF_REGISTERED.get_or_init(|| {
+            cachelito_core::verif::register_global(
+                #fn_name_str,
+                move || {
+                    let order = #order_ident.lock();
+                    let now = std::time::SystemTime::now()
+                        .duration_since(std::time::UNIX_EPOCH)
+                        .unwrap()
+                        .as_secs();
+                    cachelito_core::verif::CacheDump {
+                        entries: #cache_ident
+                            .iter()
+                            .map(|e| (
+                                e.key().clone(),
+                                format!("{:?}", e.value().0),
+                                #size_expr,
+                                now.saturating_sub(e.value().1) * 1000,
+                                e.value().2,
+                            ))
+                            .collect(),
+                        queue: order.iter().cloned().collect(),
+                    }
+                },
+                move |ms: u64| {
+                    for mut e in #cache_ident.iter_mut() {
+                        let v = e.value_mut();
+                        v.1 = v.1.saturating_sub(ms / 1000);
+                    }
+                },
+            );
+        });
+    }
+}
+
 /// Generate common cache lookup and execution logic
 fn generate_cache_logic_block(
     key_expr: &TokenStream2,
@@ -414,6 +466,10 @@ pub fn cache_async(attr: TokenStream, item: TokenStream) -> TokenStream {
         });
     };
 
+    // Verification hook H2 (cargo feature `verif`, add-only)
+    let verif_registration =
+        verif_registration(&cache_ident, &order_ident, fn_name_str, max_memory_expr);
+
     // Generate final expanded code
     let expanded = quote! {
         #vis #sig {
@@ -435,6 +491,7 @@ pub fn cache_async(attr: TokenStream, item: TokenStream) -> TokenStream {
 
             #invalidation_registration
             #invalidation_callback_registration
+            #verif_registration
 
             #cache_logic
         }
